@@ -38,7 +38,8 @@ InAlias == {TrStk("LIST", <<[PStack(es, <<FALSE, FALSE>>) EXCEPT !.form = f], Lf
 
 \* two levels down: the pattern stack inside a Stack that is itself nested -- directly, or as a Condition's expression
 Deep    == {TrStk("OR", <<TrCnd(<<"k">>, "Eq", TrStk("AND", <<PStack(es, <<FALSE, FALSE>>), Lf(11)>>)), TrStk("AND", <<Lf(12)>>)>>) : es \in Patterns}
-      \cup {TrStk("LIST", <<TrStk("AND", <<Lf(11), PStack(es, <<FALSE, FALSE>>)>>), Lf(12)>>) : es \in Patterns}
+      \cup {[TrStk("LIST", <<[TrStk("AND", <<Lf(11), PStack(es, <<FALSE, FALSE>>)>>) EXCEPT !.nn = b2], Lf(12)>>) EXCEPT !.nn = b1, !.fwd = f] :
+               es \in Patterns, b1 \in BOOLEAN, b2 \in BOOLEAN, f \in BOOLEAN}     \* no-nesting set afterwards / forward indices on the holders: no effect
       \cup {TrStk("LIST", <<TrStk("AND", <<TrCnd(<<"k">>, "Eq", PStack(es, <<FALSE, FALSE>>)), TrStk("OR", <<Lf(11)>>)>>), Lf(12)>>) : es \in Patterns}
 
 \* typed nil pointers among the elements: top level, nested, in a Condition
